@@ -2,27 +2,30 @@
    run from the CURRENT text of FFIManager::callFunction (Gen_FfiTable.v); each theorem about them is
    the generic lemma of Lemmas.v / Sites.v applied to a vm_compute evaluation of the corresponding
    decidable check on the generated table - a change of the table re-opens the obligation itself.
-   Statements quantify over every native function, every signature (any arity), every argument list,
-   every state of the FFI manager, every set of libraries on disk and every history. *)
+   Statements quantify over every native function, every signature (any arity, any TypeInfo), every
+   argument list, every state of the FFI manager, every set of libraries on disk and every history.
+   (State of the code: after the fix commits 0c197b6 1309e2f 7ec0e3a ccde50e 000c633; the five
+   `_refuted` theorems of the first version are now the positive statements below.) *)
 From Coq Require Import ZArith List Bool.
-From Cb Require Import C20.Model C20.Lemmas C20.Sites C20.Gen_FfiTable.
+From Cb Require Import C20.Model C20.Lemmas C20.IntDouble C20.Sites C20.Gen_FfiTable.
 Import ListNotations.
 Local Open Scope Z_scope.
 
 (* ---- the generated table ------------------------------------------------------------------- *)
 
-(* Every row, for every declared signature over int/long/double/void that selects it, casts the
-   void* to exactly the C type of that declared signature (all positions tested, same types). *)
+(* Every row, for EVERY declared signature that selects it (no restriction on the return type any
+   more), casts the void* to exactly the C type of that declared signature. *)
 Theorem dispatch_cast_matches_signature :
-  forall g r ret ps, In g ffi_chain -> In r (g_rows g) -> In ret (g_rets g) -> in_scope ret = true ->
+  forall g r ret ps, In g ffi_chain -> In r (g_rows g) -> In ret (g_rets g) ->
   pat_match (r_pat r) ps = true -> r_cast r = mk_csig ret ps.
 Proof. exact (casts_ok_sound ffi_chain (eq_refl true <: casts_ok ffi_chain = true)). Qed.
 Print Assumptions dispatch_cast_matches_signature.
 
-(* Semantic form: whatever the declared signature (any arity, any types) and the arguments, a native
-   call made by callFunction goes through a pointer of exactly the declared type. *)
+(* Semantic form: whatever the registered signature (any arity, any types - float returns, pointer
+   parameters included) and the arguments, a native call made by callFunction goes through a pointer
+   of exactly that type. *)
 Theorem never_calls_through_wrong_type :
-  forall native sig args c, in_scope (cs_ret sig) = true ->
+  forall native sig args c,
   o_call (dispatch native ffi_chain sig args) = Some c -> k_cast c = sig.
 Proof. exact (fun native => dispatch_cast_sound native ffi_chain (eq_refl true <: casts_ok ffi_chain = true)). Qed.
 Print Assumptions never_calls_through_wrong_type.
@@ -30,28 +33,28 @@ Print Assumptions never_calls_through_wrong_type.
 (* The native function receives, position by position and in declaration order, the C conversion of
    the k-th Cb argument to the k-th declared parameter type. *)
 Theorem args_in_declaration_order :
-  forall native sig args c, in_scope (cs_ret sig) = true -> length args = length (cs_params sig) ->
+  forall native sig args c, length args = length (cs_params sig) ->
   o_call (dispatch native ffi_chain sig args) = Some c ->
   k_args c = spec_args (cs_params sig) args /\
   forall k t a, nth_error (cs_params sig) k = Some t -> nth_error args k = Some a ->
                 nth_error (k_args c) k = Some (conv t a).
 Proof.
-  intros native sig args c Hs L Hc.
+  intros native sig args c L Hc.
   pose proof (dispatch_args_sound native ffi_chain (eq_refl true <: casts_ok ffi_chain = true)
-                (eq_refl true <: feeds_ok ffi_chain = true) sig args c Hs L Hc) as H.
+                (eq_refl true <: feeds_ok ffi_chain = true) sig args c L Hc) as H.
   split; [exact H|]. intros k t a Hp Ha. rewrite H. exact (spec_args_nth _ _ _ _ _ Hp Ha).
 Qed.
 Print Assumptions args_in_declaration_order.
 
 (* int parameters: a value inside the 32-bit range arrives unchanged ... *)
 Theorem int_exact_in_range :
-  forall native sig args c k a, in_scope (cs_ret sig) = true -> length args = length (cs_params sig) ->
+  forall native sig args c k a, length args = length (cs_params sig) ->
   o_call (dispatch native ffi_chain sig args) = Some c ->
   nth_error (cs_params sig) k = Some TInt -> nth_error args k = Some a -> in_i32 (v_value a) ->
   nth_error (k_args c) k = Some (CInt (v_value a)).
 Proof.
-  intros native sig args c k a Hs L Hc Hp Ha Hr.
-  destruct (args_in_declaration_order native sig args c Hs L Hc) as [_ H].
+  intros native sig args c k a L Hc Hp Ha Hr.
+  destruct (args_in_declaration_order native sig args c L Hc) as [_ H].
   rewrite (H k TInt a Hp Ha). unfold conv. simpl. now rewrite wrap32_id.
 Qed.
 Print Assumptions int_exact_in_range.
@@ -59,13 +62,13 @@ Print Assumptions int_exact_in_range.
 (* ... and any other 64-bit value is narrowed explicitly: the callee sees the value reduced modulo
    2^32 into the int range, never anything else. *)
 Theorem int_narrowing_explicit :
-  forall native sig args c k a, in_scope (cs_ret sig) = true -> length args = length (cs_params sig) ->
+  forall native sig args c k a, length args = length (cs_params sig) ->
   o_call (dispatch native ffi_chain sig args) = Some c ->
   nth_error (cs_params sig) k = Some TInt -> nth_error args k = Some a ->
   exists z, nth_error (k_args c) k = Some (CInt z) /\ in_i32 z /\ (z - v_value a) mod 2 ^ 32 = 0.
 Proof.
-  intros native sig args c k a Hs L Hc Hp Ha.
-  destruct (args_in_declaration_order native sig args c Hs L Hc) as [_ H].
+  intros native sig args c k a L Hc Hp Ha.
+  destruct (args_in_declaration_order native sig args c L Hc) as [_ H].
   exists (wrap32 (v_value a)). split; [exact (H k TInt a Hp Ha)|]. split; [apply wrap32_range | apply wrap32_congr].
 Qed.
 Print Assumptions int_narrowing_explicit.
@@ -73,7 +76,7 @@ Print Assumptions int_narrowing_explicit.
 (* Results: whenever a call is made, no error is recorded and the Variable handed back is exactly the
    native result, typed by the declared return type ... *)
 Theorem results_returned_unchanged :
-  forall native sig args c, in_scope (cs_ret sig) = true ->
+  forall native sig args c,
   o_call (dispatch native ffi_chain sig args) = Some c ->
   o_err (dispatch native ffi_chain sig args) = None /\
   o_res (dispatch native ffi_chain sig args) = spec_result (cs_ret sig) (native sig (k_args c)) default_var.
@@ -91,8 +94,7 @@ Theorem long_exact :
   v_value (o_res (dispatch native ffi_chain sig args)) = z.
 Proof.
   intros native sig args c z Hr Hc Hn Hz.
-  assert (Hs : in_scope (cs_ret sig) = true) by (rewrite Hr; reflexivity).
-  destruct (results_returned_unchanged native sig args c Hs Hc) as [_ H].
+  destruct (results_returned_unchanged native sig args c Hc) as [_ H].
   rewrite H, Hn, Hr. simpl. split; [reflexivity | now apply wrap64_id].
 Qed.
 Print Assumptions long_exact.
@@ -104,110 +106,121 @@ Theorem double_result_bit_exact :
   v_dbl (o_res (dispatch native ffi_chain sig args)) = b.
 Proof.
   intros native sig args c b Hr Hc Hn Hb.
-  assert (Hs : in_scope (cs_ret sig) = true) by (rewrite Hr; reflexivity).
-  destruct (results_returned_unchanged native sig args c Hs Hc) as [_ H].
+  destruct (results_returned_unchanged native sig args c Hc) as [_ H].
   rewrite H, Hn, Hr. simpl. split; [reflexivity | now apply Z.mod_small].
 Qed.
 Print Assumptions double_result_bit_exact.
 
+(* Only int/long/double/void returns over int/long/double parameters are ever called: a declaration
+   returning float, or with a pointer parameter (registered as TYPE_POINTER), or with any other
+   TypeInfo is unsupported - hence (unsupported_is_no_call, unsupported_reports_diagnostic) never
+   entered and always reported. *)
+Theorem supported_only_plain_types :
+  forall sig, supported ffi_chain sig = true ->
+  in_scope (cs_ret sig) = true /\ Forall plain (cs_params sig).
+Proof.
+  exact (supported_plain ffi_chain (eq_refl true <: casts_ok ffi_chain = true)
+           (eq_refl true <: feeds_ok ffi_chain = true) (eq_refl true <: stores_ok ffi_chain = true)).
+Qed.
+Print Assumptions supported_only_plain_types.
+
+Theorem float_return_or_pointer_param_is_unsupported :
+  forall d, (fd_ret d = TFloat \/ exists p, In p (fd_params d) /\ snd p = true) ->
+  cs_params (decl_sig d) = map dty_ty (snd (decl_ctype d)) /\ supported ffi_chain (decl_sig d) = false.
+Proof.
+  intros d H. split; [apply decl_sig_params|].
+  apply (not_plain_unsupported ffi_chain (eq_refl true <: casts_ok ffi_chain = true)
+           (eq_refl true <: feeds_ok ffi_chain = true) (eq_refl true <: stores_ok ffi_chain = true)).
+  destruct H as [H|(p & Hin & Hp)].
+  - left. simpl. rewrite H. reflexivity.
+  - right. exists TPointer. split; [exact (decl_sig_pointer d p Hin Hp)|].
+    intros [A|[A|A]]; discriminate.
+Qed.
+Print Assumptions float_return_or_pointer_param_is_unsupported.
+
 (* ---- unsupported signatures --------------------------------------------------------------- *)
 
-(* A signature outside the table never reaches a native function (any return type, void included). *)
+(* A signature outside the table never reaches a native function. *)
 Theorem unsupported_is_no_call :
   forall native sig args, supported ffi_chain sig = false ->
   o_call (dispatch native ffi_chain sig args) = None.
 Proof. exact (fun native => unsupported_no_call native ffi_chain). Qed.
 Print Assumptions unsupported_is_no_call.
 
-(* PARTIAL (non-void only): it is reported - callFunction records "Unsupported function signature",
-   returns TYPE_UNKNOWN, and the qualified call site prints the diagnostic and exits with status 1. *)
-Theorem unsupported_reports_diagnostic_partial :
-  forall native sig, supported ffi_chain sig = false -> cs_ret sig <> TVoid ->
+(* ... and it is always reported, for EVERY return type (void included) and on BOTH call paths:
+   callFunction records "Unsupported function signature" and returns TYPE_UNKNOWN; module.f(...) and
+   f(...) print the diagnostic and exit with status 1 without calling. *)
+Theorem unsupported_reports_diagnostic :
+  forall native sig, supported ffi_chain sig = false ->
   (forall args,
      o_err (dispatch native ffi_chain sig args) = Some (EUnsupported (cs_ret sig) (length (cs_params sig))) /\
      v_type (o_res (dispatch native ffi_chain sig args)) = TUnknown) /\
-  (forall nat_fn st m f tvs, mem_nat m (st_loaded st) = true -> lookup_fn (st_fns st) m f = Some sig ->
-     length tvs = length (cs_params sig) ->
-     qualified_call nat_fn ffi_chain ffi_arity_check st m f tvs =
-       (SExit (EUnsupported (cs_ret sig) (length (cs_params sig))), None)).
+  (forall nat_fn st m f tvs, lookup_fn (st_fns st) m f = Some sig -> length tvs = length (cs_params sig) ->
+     (mem_nat m (st_loaded st) = true ->
+      qualified_call nat_fn ffi_chain ffi_arity_check st m f tvs =
+        (SExit (EUnsupported (cs_ret sig) (length (cs_params sig))), None)) /\
+     (mem_nat m (st_loaded st) = true -> min_module (st_fns st) f None = Some m ->
+      unqualified_call nat_fn ffi_chain ffi_arity_check st f tvs =
+        (SExit (EUnsupported (cs_ret sig) (length (cs_params sig))), None))).
 Proof.
-  intros native sig Hu Hv.
-  pose proof (tails_ok_sound ffi_chain (eq_refl true <: tails_ok ffi_chain = true) (cs_ret sig) Hv) as Hf.
+  intros native sig Hu.
+  pose proof (tails_ok_sound ffi_chain (eq_refl true <: tails_ok ffi_chain = true) (cs_ret sig)) as Hf.
   split.
   - intro args. exact (unsupported_diag native ffi_chain sig args Hu Hf).
-  - intros nat_fn st m f tvs Hm Hl L.
-    exact (qualified_unsupported_exits_l nat_fn ffi_chain ffi_arity_check st m f sig tvs Hm Hl L Hu Hf).
+  - intros nat_fn st m f tvs Hl L. split.
+    + intro Hm. rewrite (qualified_is_site nat_fn ffi_chain ffi_arity_check st m f tvs Hm).
+      exact (site_unsupported_l nat_fn ffi_chain ffi_arity_check st m f sig tvs Hm Hl L Hu Hf).
+    + intros Hm Hmin. rewrite (unqualified_is_site nat_fn ffi_chain ffi_arity_check st m f tvs Hmin).
+      exact (site_unsupported_l nat_fn ffi_chain ffi_arity_check st m f sig tvs Hm Hl L Hu Hf).
 Qed.
-Print Assumptions unsupported_reports_diagnostic_partial.
-
-(* REFUTED for void: `void f(double)` is not in the table, no call is made, but no error is recorded
-   and the program goes on (known finding C20-void-unsupported-silent). *)
-Theorem unsupported_void_reports_diagnostic_refuted :
-  exists sig, supported ffi_chain sig = false /\
-  forall native args, o_err (dispatch native ffi_chain sig args) = None /\
-                      v_type (o_res (dispatch native ffi_chain sig args)) = TVoid /\
-                      o_call (dispatch native ffi_chain sig args) = None.
-Proof. exists (mk_csig TVoid [TDouble]). split; [reflexivity|]. intros. repeat split. Qed.
-Print Assumptions unsupported_void_reports_diagnostic_refuted.
-
-(* REFUTED on the unqualified path f(...): the TYPE_UNKNOWN result is not tested there, an unsupported
-   `int f(double)` evaluates to 0 without any diagnostic (known finding C20-unqualified-unsupported-silent). *)
-Theorem unqualified_unsupported_reports_diagnostic_refuted :
-  exists st f tvs sig, lookup_fn (st_fns st) 0%nat f = Some sig /\ supported ffi_chain sig = false /\
-  cs_ret sig <> TVoid /\ length tvs = length (cs_params sig) /\
-  forall native, unqualified_call native ffi_chain ffi_arity_check st f tvs = (SValue false 0, None).
-Proof.
-  exists (mk_st [0%nat] [(0%nat, 0%nat, mk_csig TInt [TDouble])]), 0%nat,
-         [mk_tv TDouble true false 1 4607182418800017408], (mk_csig TInt [TDouble]).
-  repeat split; try reflexivity. discriminate.
-Qed.
-Print Assumptions unqualified_unsupported_reports_diagnostic_refuted.
-
-(* REFUTED outside int/long/double/void: a function declared `float f(double)` is entered through a
-   double( * )(double) pointer (known finding C20-float-return-cast-as-double). *)
-Theorem dispatch_cast_matches_signature_float_refuted :
-  exists sig, cs_ret sig = TFloat /\
-  forall native args, exists c, o_call (dispatch native ffi_chain sig args) = Some c /\ k_cast c <> sig.
-Proof.
-  exists (mk_csig TFloat [TDouble]). split; [reflexivity|]. intros native args.
-  eexists. split; [reflexivity|]. simpl. discriminate.
-Qed.
-Print Assumptions dispatch_cast_matches_signature_float_refuted.
+Print Assumptions unsupported_reports_diagnostic.
 
 (* ---- call sites (call_impl.cpp) ----------------------------------------------------------- *)
 
-(* Mech refines Spec on the qualified path: for every supported signature over int/long/double/void,
-   every state in which it is registered and every well-typed argument list (integer-typed values in
-   the int range for int parameters, integer-typed for long, double-typed for double), exactly one
-   native call is made, through the declared type, with exactly the argument values (doubles: the
-   same 64 bits), and the value handed to the evaluator is exactly the native result. *)
+(* Mech refines Spec on both paths: for every supported signature, every state in which it is
+   registered and every well-typed argument list (integer-typed values in the int range for int
+   parameters, integer-typed for long, double-typed OR integer-typed for double), exactly one native
+   call is made, through the declared type, with exactly the argument values (doubles: the same 64
+   bits; integers for a double parameter: their C conversion), and the value handed to the evaluator
+   is exactly the native result. *)
 Theorem supported_call_end_to_end :
   forall native st m f sig tvs,
     mem_nat m (st_loaded st) = true -> lookup_fn (st_fns st) m f = Some sig ->
-    in_scope (cs_ret sig) = true -> supported ffi_chain sig = true -> Forall2 wt (cs_params sig) tvs ->
-    qualified_call native ffi_chain ffi_arity_check st m f tvs =
+    supported ffi_chain sig = true -> Forall2 wt (cs_params sig) tvs ->
+    let expected :=
       (site_value (spec_result (cs_ret sig) (native m f sig (exact_vals (cs_params sig) tvs)) default_var),
-       Some (mk_call sig (exact_vals (cs_params sig) tvs))).
+       Some (mk_call sig (exact_vals (cs_params sig) tvs))) in
+    qualified_call native ffi_chain ffi_arity_check st m f tvs = expected /\
+    (min_module (st_fns st) f None = Some m ->
+     unqualified_call native ffi_chain ffi_arity_check st f tvs = expected).
 Proof.
-  exact (fun native => qualified_supported_end_to_end_l native ffi_chain ffi_arity_check
-           (eq_refl true <: casts_ok ffi_chain = true) (eq_refl true <: feeds_ok ffi_chain = true)
-           (eq_refl true <: stores_ok ffi_chain = true)).
+  intros native st m f sig tvs Hm Hl Hs Hw expected.
+  pose proof (site_supported_l native ffi_chain ffi_arity_check
+                (eq_refl true <: casts_ok ffi_chain = true) (eq_refl true <: feeds_ok ffi_chain = true)
+                (eq_refl true <: stores_ok ffi_chain = true) st m f sig tvs Hm Hl Hs Hw) as H.
+  split.
+  - rewrite (qualified_is_site native ffi_chain ffi_arity_check st m f tvs Hm). exact H.
+  - intro Hmin. rewrite (unqualified_is_site native ffi_chain ffi_arity_check st m f tvs Hmin). exact H.
 Qed.
 Print Assumptions supported_call_end_to_end.
 
-(* REFUTED when the argument is integer-typed and the parameter is double: only Variable::value is
-   filled at the call site and the row reads Variable::double_value, so `f(2)` hands 0.0 to
-   `double f(double)` instead of 2.0 = 0x4000000000000000 (DESIGN.md section 7 #30,
-   known finding C20-int-arg-to-double-param). *)
-Theorem int_arg_to_double_param_refuted :
-  exists st tv, tv_type tv = TInt /\ tv_value tv = 2 /\
-  forall native, snd (qualified_call native ffi_chain ffi_arity_check st 0%nat 0%nat [tv]) =
-                 Some (mk_call (mk_csig TDouble [TDouble]) [CDouble 0]).
+(* DESIGN.md section 7 #30, repaired: an integer-typed argument for a double parameter arrives as the
+   double that IS that integer - for every |v| < 2^53 the pattern handed over denotes exactly v (sign,
+   exponent and 53-bit significand decode to v; beyond 2^53 the model rounds to nearest-even like
+   cvtsi2sd, tested only). *)
+Theorem int_arg_to_double_param_exact :
+  forall tv, int_typed tv -> Z.abs (tv_value tv) < 2 ^ 53 ->
+  exact_val TDouble tv = CDouble (double_of_i64 (tv_value tv)) /\
+  v_dbl (build_arg tv) = double_of_i64 (tv_value tv) /\
+  0 <= double_of_i64 (tv_value tv) < 2 ^ 64 /\
+  dbl_denotes_int (double_of_i64 (tv_value tv)) (tv_value tv).
 Proof.
-  exists (mk_st [0%nat] [(0%nat, 0%nat, mk_csig TDouble [TDouble])]), (mk_tv TInt false false 2 0).
-  repeat split.
+  intros tv Hi Hv. destruct (double_of_i64_exact (tv_value tv) Hv) as [Hb Hd].
+  split; [|split; [|split; assumption]].
+  - simpl. destruct Hi as (H1 & H2 & _). rewrite H1, H2. reflexivity.
+  - rewrite (build_arg_int tv Hi). reflexivity.
 Qed.
-Print Assumptions int_arg_to_double_param_refuted.
+Print Assumptions int_arg_to_double_param_exact.
 
 (* A call with the wrong number of arguments never reaches the native function. *)
 Theorem arity_mismatch_is_no_call :
@@ -223,14 +236,14 @@ Print Assumptions arity_mismatch_is_no_call.
 (* ---- histories: use foreign declarations followed by calls -------------------------------- *)
 
 (* In every history, for every set of library files, every native call enters a symbol that exists
-   in a library that exists (a missing library or symbol never leads to a call), through the
-   pointer type of one of the declarations given for that function whenever that declaration
-   returns int/long/double/void. *)
+   in a library that exists (a missing library or symbol never leads to a call), through exactly
+   the pointer type registered by one of the declarations given for that function (decl_sig: the
+   declared types, pointer parameters as TYPE_POINTER). *)
 Theorem history_calls_sound :
   forall native e ops m f c,
   In (EvCall m f c) (run_history native ffi_chain ffi_arity_check e st_empty ops) ->
   (exists syms, e m = Some syms /\ In f syms) /\
-  (exists s, declared ops m f s /\ (in_scope (cs_ret s) = true -> k_cast c = s)).
+  (exists s, declared ops m f s /\ k_cast c = s).
 Proof.
   intros native e ops m f c H.
   exact (history_calls_sound_l native ffi_chain ffi_arity_check e ops (eq_refl true <: casts_ok ffi_chain = true)
@@ -251,26 +264,29 @@ Theorem missing_symbol_reported :
 Proof. exact (fun native => missing_symbol_reported_l native ffi_chain ffi_arity_check). Qed.
 Print Assumptions missing_symbol_reported.
 
-(* REFUTED for pointer parameters: processForeignModule drops ForeignParameter::is_pointer, so
-   `int f(int* p)` is registered as int(int) and entered through int( * )(int) with a truncated address
-   (known finding C20-pointer-param-as-int). *)
-Theorem pointer_param_cast_refuted :
-  exists d tv, decl_ctype d = (TInt, [DPtr TInt]) /\
-  forall native, In (EvCall 0%nat 0%nat (mk_call (mk_csig TInt [TInt]) [CInt 5]))
-                    (run_history native ffi_chain ffi_arity_check (fun _ => Some [0%nat]) st_empty
-                                 [OUse 0%nat [d]; OCall true 0%nat 0%nat [tv]]).
-Proof.
-  exists (mk_fdecl 0%nat TInt [(TInt, true)]), (mk_tv TInt false false 5 0).
-  split; [reflexivity|]. intro native. simpl. left. reflexivity.
-Qed.
-Print Assumptions pointer_param_cast_refuted.
-
-(* ---- non-vacuity -------------------------------------------------------------------------- *)
+(* ---- non-vacuity / former refutation witnesses, now on the right side --------------------- *)
 Example supported_examples :
   supported ffi_chain (mk_csig TInt [TInt; TInt]) = true /\ supported ffi_chain (mk_csig TLong [TInt]) = true /\
   supported ffi_chain (mk_csig TDouble [TDouble; TDouble; TDouble; TDouble]) = true /\
-  supported ffi_chain (mk_csig TInt [TLong]) = false /\ supported ffi_chain (mk_csig TLong []) = false.
+  supported ffi_chain (mk_csig TInt [TLong]) = false /\ supported ffi_chain (mk_csig TLong []) = false /\
+  supported ffi_chain (mk_csig TFloat [TDouble]) = false /\ supported ffi_chain (mk_csig TVoid [TDouble]) = false.
 Proof. repeat split. Qed.
+
+(* f(2) for double f(double): the callee now sees 0x4000000000000000 = 2.0 *)
+Example int_two_arrives_as_two :
+  forall native, snd (qualified_call native ffi_chain ffi_arity_check
+                        (mk_st [0%nat] [(0%nat, 0%nat, mk_csig TDouble [TDouble])]) 0%nat 0%nat
+                        [mk_tv TInt false false 2 0]) =
+                 Some (mk_call (mk_csig TDouble [TDouble]) [CDouble 4611686018427387904]).
+Proof. intro. vm_compute. reflexivity. Qed.
+
+(* int f(int* p) called with an address: reported, never entered *)
+Example pointer_declaration_history :
+  forall native, run_history native ffi_chain ffi_arity_check (fun _ => Some [0%nat]) st_empty
+                   [OUse 0%nat [mk_fdecl 0%nat TInt [(TInt, true)]];
+                    OCall true 0%nat 0%nat [mk_tv TPointer false false 140737488355328 0]] =
+                 [EvDiag (DCallFailed (EUnsupported TInt 1)); EvResult (SExit (EUnsupported TInt 1))].
+Proof. intro. vm_compute. reflexivity. Qed.
 
 (* one complete history against the echo library: declaration, qualified call long e(int) with -1 *)
 Example history_example :
